@@ -497,13 +497,10 @@ namespace SP
 theorem milestonePrepass_size (e : Env) (σ : St) : (milestonePrepass e σ).ts.size = σ.ts.size := by
   unfold milestonePrepass; exact foldl_setT_size _ _ σ
 
-/-- **C10, dates, end to end**: in the final state of any scenario of a project whose task tree is well-formed
-    (children declared after their parents), every scheduled container has all its children scheduled and carries the
-    minimum of their starts and the maximum of their ends; and every container all of whose children are scheduled is
-    scheduled -/
-theorem runScenario_containers (e : Env) (tr : Tree e) :
-    ContInv e (runScenario e) ∧ Complete e (runScenario e) := by
-  unfold runScenario
+/-- the state the pick loop ends in: every scheduled container summarises its children, every container whose children
+    are all scheduled is scheduled -/
+theorem scheduleScenario_cont (e : Env) (tr : Tree e) :
+    ContInv e (scheduleScenario e (prepare e (initState e))) ∧ Complete e (scheduleScenario e (prepare e (initState e))) := by
   have hsz0 : (prepare e (initState e)).ts.size = e.tasks.size := by rw [prepare_size, initState_size]
   have hn0 := prepare_noContSched e _ (noContSched_init e)
   -- before the roll-up of `preLoop` no container is scheduled
@@ -532,6 +529,39 @@ theorem runScenario_containers (e : Env) (tr : Tree e) :
           (todoOf e (preLoop e (prepare e (initState e)))) [] (preLoop e (prepare e (initState e)))).1) rfl h3,
         Complete.of_ts (σ := (pickLoop e ((todoOf e (preLoop e (prepare e (initState e)))).length + 1)
           (todoOf e (preLoop e (prepare e (initState e)))) [] (preLoop e (prepare e (initState e)))).1) rfl h4⟩
+  exact h5
+
+
+/-- `finishScenario` changes no date and no scheduled flag -/
+theorem finishScenario_sameDates (e : Env) (σ : St) (hci : ContInv e σ) (hco : Complete e σ) :
+    ∀ y, SameDates ((finishScenario e σ).tst y) (σ.tst y) := by
+  unfold finishScenario
+  have := foldl_inv (fun acc => (ContInv e acc ∧ Complete e acc) ∧ ∀ y, SameDates (acc.tst y) (σ.tst y))
+    (fun acc t => if (e.taskD t).leaf then acc else scheduleContainer e acc t) (List.range e.tasks.size).reverse σ
+    ⟨⟨hci, hco⟩, fun y => ⟨rfl, rfl, rfl⟩⟩
+    (by
+      intro acc x ⟨⟨h1, h2⟩, h3⟩
+      split
+      · exact ⟨⟨h1, h2⟩, h3⟩
+      · have hsd : ∀ y, SameDates ((scheduleContainer e acc x).tst y) (acc.tst y) := by
+          intro y
+          unfold scheduleContainer
+          rw [tst_setT]
+          split
+          · rename_i hxy; rw [← hxy.1]; exact containerT_sameDates e acc x h1 h2
+          · exact ⟨rfl, rfl, rfl⟩
+        exact ⟨⟨contInv_sameDates e acc _ hsd h1, complete_sameDates e acc _ hsd h2⟩,
+          fun y => ⟨(hsd y).1.trans (h3 y).1, (hsd y).2.1.trans (h3 y).2.1, (hsd y).2.2.trans (h3 y).2.2⟩⟩)
+  exact this.2
+
+/-- **C10, dates, end to end**: in the final state of any scenario of a project whose task tree is well-formed
+    (children declared after their parents), every scheduled container has all its children scheduled and carries the
+    minimum of their starts and the maximum of their ends; and every container all of whose children are scheduled is
+    scheduled -/
+theorem runScenario_containers (e : Env) (tr : Tree e) :
+    ContInv e (runScenario e) ∧ Complete e (runScenario e) := by
+  unfold runScenario
+  have h5 := scheduleScenario_cont e tr
   exact finishScenario_cont e _ h5.1 h5.2
 
 end SP
